@@ -4,7 +4,6 @@ import inspect
 import re
 import reprlib
 import sys
-import textwrap
 import uuid
 from typing import (
     Any,
@@ -289,8 +288,15 @@ def inspect_decorator(
     decorator_lines = lines[decorator_lineno:decorator_end_lineno]
 
     # We need to dedent the decorator and add a dummy decorate so that we can parse its text as valid source code.
-    decorator_text = textwrap.dedent(
-        "".join(decorator_lines)
+    #
+    # The margin is given by the line with the ``@``. The following lines live inside parentheses or string literals
+    # and may thus be indented less than the decorator itself (so that ``textwrap.dedent`` would remove too little).
+    first_line = decorator_lines[0]
+    margin = first_line[: len(first_line) - len(first_line.lstrip())]
+
+    decorator_text = "".join(
+        line[len(margin) :] if line.startswith(margin) else line
+        for line in decorator_lines
     ) + "def dummy_{}(): pass".format(uuid.uuid4().hex)
 
     atok = asttokens.asttokens.ASTTokens(decorator_text, parse=True)
